@@ -4,6 +4,9 @@
 # the quick check against it, and compare with the expectation encoded in the name:
 #   S*  (property-breaking)  -> the check must exit 1 with a VIOLATION line
 #   N*  (property-preserving)-> the check must exit 0
+#   H*  (breaks something C06 does not speak about in a way that stops the exploration, e.g. a
+#        fault-free solve that never returns) -> the check must exit 2 within its watchdog limits,
+#        not hang and not report a C06 violation; the repository's own tests are not run on these
 # Nothing is ever applied to /repo; the scratch worktree and its build output are removed at the end.
 # usage: sensitivity/run.sh [patch files...]      (default: all)
 set -u
@@ -26,7 +29,8 @@ for p in "$@"; do
     git -C "$SCR" checkout -q -- . && git -C "$SCR" clean -qfd -e .ivpsim-target -e target
     if ! git -C "$SCR" apply "$p"; then echo "$name: PATCH DOES NOT APPLY"; fail=1; continue; fi
     tests="skipped"
-    if [ "${SENS_TESTS:-1}" = "1" ]; then
+    case "$name" in H*) skiptests=1 ;; *) skiptests=0 ;; esac
+    if [ "${SENS_TESTS:-1}" = "1" ] && [ $skiptests = 0 ]; then
         if (cd "$SCR" && CARGO_NET_OFFLINE=true cargo test --workspace --no-fail-fast --offline) >"$OUT/$name.tests" 2>&1; then
             tests="pass"
         else
@@ -37,6 +41,7 @@ for p in "$@"; do
     rc=$?
     case "$name" in
         N*) want=0 ;;
+        H*) want=2 ;;
         *) want=1 ;;
     esac
     classes="$(grep -o 'violation class=[a-z-]*' "$OUT/$name.log" | sort | uniq -c | tr '\n' ' ')"
